@@ -16,5 +16,4 @@ CONSTANTS
 INIT TInit
 NEXT TNext
 VIEW TView
-INVARIANTS NoneSkipped
 CHECK_DEADLOCK FALSE
